@@ -1380,7 +1380,13 @@ extern "C" void rt_execute (const rt_config *cfg, const rt_hooks *hooks, rt_verd
 				if (!g_quiescent_livelock && (collect_enabled (en) > 0 || clock_enabled ())) continue;
 			}
 			ll = g_quiescent_livelock;
+			// a quiescence is a global barrier: the handler (main context) sees everything every thread did,
+			// and every thread that continues sees what the handler did
+			for (int t = 1; t < RT_MAXT; t++) for (int u = 0; u < RT_MAXT; u++) if (g_vc[t][u] > g_vc[0][u]) g_vc[0][u] = g_vc[t][u];
+			g_vc[0][0]++;
 			int r = hooks->at_quiescence ? hooks->at_quiescence (hooks->arg, ll ? 1 : 0) : 0;
+			g_vc[0][0]++;
+			for (int t = 1; t < RT_MAXT; t++) for (int u = 0; u < RT_MAXT; u++) if (g_vc[0][u] > g_vc[t][u]) g_vc[t][u] = g_vc[0][u];
 			g_quiescent_livelock = false;
 			if (g_verdict.kind != RT_V_NONE) break;
 			if (!r) {
